@@ -18,7 +18,8 @@ partial def parseTy (j : Json) : R Ty := do
   | "iface" => pure .iface
   | "regexp" => pure .regexp
   | "config" => pure .config
-  | "chan" | "func" | "complex" | "badmap" => pure .unsupported
+  | "chan" | "func" | "complex" => pure .unsupported
+  | "badmap" => pure .badmap
   | "bool" => pure (.prim .bool) | "string" => pure (.prim .string) | "duration" => pure (.prim .duration)
   | "int" | "int64" => pure (.prim (.int 64)) | "int8" => pure (.prim (.int 8))
   | "int16" => pure (.prim (.int 16)) | "int32" => pure (.prim (.int 32))
@@ -56,6 +57,7 @@ partial def parseGoVal (j : Json) : R GoVal := do
     | _ => pure (.map none)
   else if let some v := optField j "st" then pure (.strct (← (← v.getArr?).toList.mapM parseGoVal))
   else if (optField j "cfg").isSome then pure (.cfg none)
+  else if (optField j "unsup").isSome then pure .unsup
   else throw s!"bad goval {j.compress}"
 
 partial def goValJson : GoVal → Json
